@@ -732,7 +732,7 @@ impl Model {
             .map(|(r, i)| format!("{}:{}", r, i))
             .collect();
         format!(
-            "list={} sel={} nopt={} mc={} clear={:?} cur={} run={} pool={}/{} rdone={} re={} cq={:?} q={:?}",
+            "list={} sel={} nopt={} mc={} clear={:?} cur={} run={} pool={}/{} rdone={} re={} dq={} dcmd={} cq={:?} q={:?}",
             list.join(","),
             sel.join(","),
             self.num_options,
@@ -744,6 +744,9 @@ impl Model {
             self.item_pool.len(),
             self.reader_control.as_ref().map(|c| c.is_done()).unwrap_or(true),
             self.use_regex,
+            // what the query line shows / the command it stands for (hex), next to what the matcher and reader were given
+            self.query.get_fz_query().bytes().map(|b| format!("{:02x}", b)).collect::<String>() + ".",
+            self.query.get_cmd().bytes().map(|b| format!("{:02x}", b)).collect::<String>() + ".",
             env.cmd_query,
             env.query,
         )
